@@ -936,6 +936,21 @@ func c04Scenarios(tier string) []*world.Scenario {
 			}
 		}
 	}
+	// a replica is re-parented to another master and nothing else changes: reads of its OLD master's slots must no longer
+	// reach it (it is outside the owning set), reads of its new master's slots may
+	for _, sc := range c20Reparent() {
+		sc.Name = strings.Replace(sc.Name, "C20/", "C04/", 1)
+		sc.Family = "replica-reparented"
+		inner := sc.Final
+		sc.Final = func(obs map[string]int) []world.Violation {
+			vs := inner(obs)
+			for i := range vs {
+				vs[i].Sig = "wrong-replica-set"
+			}
+			return vs
+		}
+		out = append(out, sc)
+	}
 	return out
 }
 
